@@ -1,7 +1,7 @@
 import Wx.Glob.Glob
 import Wx.Glob.IgnoreFilter
 import Wx.Glob.Discover
-import Wx.Glob.Globset
+import Wx.Glob.C11Inst
 namespace Wx.Driver.Glob
 open Sp.Glob Sp.IF Sp.Disc Sp.GS
 
@@ -46,7 +46,7 @@ def filterCase (origin mode files probes : String) : String :=
       | [path, d] =>
         if mode == "spec" || mode == "specadd" then
           (if f.unspecified path.toList (d == "1") then "unspecified" else resStr (f.specMatch path.toList (d == "1")))
-        else resStr (f.matchPath path.toList (d == "1")) ++ "/" ++ toString (f.checkDir path.toList)
+        else resStr (f.matchFix path.toList (d == "1")) ++ "/" ++ toString (f.checkDirFix path.toList)
       | _ => "bad-probe"))
 
 def parsePairs (s : String) : List (List Char × List (List Char)) :=
@@ -61,7 +61,7 @@ def discCase (origin watches children igfiles explicit : String) : String :=
   let t : Tree := { children := parsePairs children, igfiles := parsePairs igfiles }
   let ws := if watches.isEmpty then [] else (watches.splitOn "\x1f").map String.toList
   let ex := if explicit.isEmpty then [] else (explicit.splitOn "\x1f").map String.toList
-  match fromOrigin t origin.toList ws ex with
+  match fromOriginFix t origin.toList ws ex with
   | none => "error"
   | some fs => String.intercalate ";" (fs.map (fun f => String.ofList f.path ++ "@" ++ String.ofList (f.appliesIn.getD ['-'])))
 
@@ -80,7 +80,7 @@ def gsCase (origin filters ignores whitelist files exts events : String) : Strin
         match t.splitOn "\x1e" with
         | [p, d] => ({ path := p.toList, isDir := d == "1" } : PTag)
         | _ => { path := [], isDir := false })
-      toString (checkEvent g tags)))
+      toString (checkEventC g tags)))
 
 def handleLine (line : String) : String :=
   match line.splitOn "\t" with
@@ -88,10 +88,11 @@ def handleLine (line : String) : String :=
   | ["IF", origin, mode, files, probes] => filterCase origin mode files probes
   | ["GS", origin, filters, ignores, whitelist, files, exts, events] => gsCase origin filters ignores whitelist files exts events
   | ["DISC", origin, watches, children, igfiles, explicit] => discCase origin watches children igfiles explicit
-  | ["DSPEC", origin, watches, children, igfiles, _] =>
+  | ["DSPEC", origin, watches, children, igfiles, explicit] =>
     let t : Tree := { children := parsePairs children, igfiles := parsePairs igfiles }
     let ws := if watches.isEmpty then [] else (watches.splitOn "\x1f").map String.toList
-    String.intercalate ";" (((specDiscover t origin.toList ws).map String.ofList).toArray.qsort (· < ·)).toList
+    let ex := if explicit.isEmpty then [] else (explicit.splitOn "\x1f").map String.toList
+    String.intercalate ";" (((specDiscover t origin.toList ws ex).map String.ofList).toArray.qsort (· < ·)).toList
   | _ => "bad-op"
 
 
